@@ -16,6 +16,9 @@ CONSTANTS
   MaxUpdates = 1
   MaxCalls = 3
   NPages = 2
+  ListenOwns = TRUE
+  ResubRace = TRUE
+  GenCheck = TRUE
   ModernUnsub = FALSE
   ForeignUnsub = FALSE
   Stepwise = TRUE
